@@ -43,6 +43,10 @@ def gen_case(rng):
     if cov:
         a = rng.normal(size=(n, n)) * 0.3
         c = a @ a.T + np.diag(rng.uniform(0.5, 2.0, n))
+        if rng.random() < 0.4:
+            # the same correlated errors at another magnitude (cm/s-level errors written in (km/s)^2 are ~1e-10):
+            # nothing about a covariance is "small enough to ignore" on an absolute scale
+            c = c * 10.0 ** rng.uniform(-14, 6)
         err = c * eu ** 2
     else:
         err = 10 ** rng.uniform(-2, 1, n) * eu
